@@ -46,7 +46,27 @@ fn main() {
     std::env::set_var("VERIF_TIER_INTERNAL", tier.name());
     let code = match args[1].as_str() {
         "replay" => props::replay::run(&args[2]),
-        id => props::run(id, tier),
+        id => {
+            // Safety net: every call into arroy is wrapped individually, but if a panic of the
+            // subject ever escapes a check, it is a verdict about the subject (arroy was given
+            // valid inputs), not a crash of the machinery.
+            match common::catch(|| props::run(id, tier)) {
+                Ok(code) => code,
+                Err(p) if p.location.starts_with("src/") => {
+                    let mut r = common::Report::new(id, tier, "other");
+                    r.cov("explanation", "the check was interrupted by a panic inside arroy");
+                    r.add_violation(common::Violation::new(
+                        format!("PANIC/{}", p.site()),
+                        format!("arroy panicked at {} while {id} was driving it with valid inputs: {}", p.location, p.message),
+                    ));
+                    r.finish()
+                }
+                Err(p) => {
+                    println!("MACHINERY-ERROR property={id} the harness panicked at {}: {}", p.location, p.message);
+                    2
+                }
+            }
+        }
     };
     std::process::exit(code);
 }
